@@ -4,3 +4,5 @@ import KestrelProofs.Noise
 import KestrelProofs.File
 import KestrelProofs.Prims
 import KestrelProofs.Scrypt
+import KestrelProofs.Base64
+import KestrelProofs.LockedKey
